@@ -38,14 +38,16 @@ func runC19(c *Ctx) {
 	c.Rule("R19b", "DER<->r||s conversion happens exactly for ECDSA keys on both the signing and the verifying side", 4)
 	c.Rule("R19c", "algorithm URI tables emitted by the signer are accepted by the verifier", 12)
 	c.Rule("R19d", "enveloped-signature transform order and canonical write settings", 7)
-	c.Rule("R19e", "attribute ordering resolves namespace URIs; declarations first", 3)
-	c.Rule("R19f", "identity fields, signer and chain come from one certificate object", 5)
+	c.Rule("R19e", "attribute ordering resolves namespace URIs per element; declarations first", 4)
+	c.Rule("R19f", "identity fields, signer and chain come from one certificate object and are written on every success path", 7)
+	c.Rule("R19g", "xmldsig.Verify fails closed: no failed signature check or digest mismatch ends in success", 3)
 	c19Pack(c)
 	c19Pairing(c)
 	c19Tables(c)
 	c19Transform(c)
 	c19AttrOrder(c)
 	c19Identity(c)
+	c19FailClosed(c)
 }
 
 // ------------------------------------------------------------------------------ R19a
@@ -495,14 +497,30 @@ func c19Transform(c *Ctx) {
 		c.Check(settings[f], "R19d", "SerializeCanonical sets "+f, p.Pos(ser.Pos()), "", "the canonical serialisation no longer sets WriteSettings."+f+": empty elements / text / attribute values are written in non-canonical form")
 	}
 	cp := p.callsIn(ser, "(*github.com/beevik/etree.Element).Copy")
-	wa := p.callsIn(ser, "lib/xmldsig.walkAttributes")
-	okCopy := len(cp) == 1 && len(wa) == 1
-	if okCopy {
-		okCopy = wa[0].Common().Args[0] == cp[0].Value()
+	walker := c19Walker(p)
+	var wa []ssa.CallInstruction
+	if walker != nil {
+		for _, b := range ser.Blocks {
+			for _, in := range b.Instrs {
+				if ci, ok := in.(ssa.CallInstruction); ok {
+					if g := ci.Common().StaticCallee(); g != nil && (g == walker || p.moduleReach([]*ssa.Function{g}, nil)[walker]) && pkgOf(g) != nil && p.Rel(pkgOf(g).Path()) == "lib/xmldsig" && len(ci.Common().Args) > 0 {
+						if _, isEl := ci.Common().Args[0].Type().(*types.Pointer); isEl && g.Name() != "pullDown" {
+							wa = append(wa, ci)
+						}
+					}
+				}
+			}
+		}
+	}
+	okCopy := len(cp) == 1 && len(wa) >= 1
+	for _, w := range wa {
+		if len(cp) == 1 && w.Common().Args[0] != cp[0].Value() {
+			okCopy = false
+		}
 	}
 	c.Check(okCopy, "R19d", "SerializeCanonical mangles a copy", p.Pos(ser.Pos()), "walkAttributes(root.Copy())", "the canonicaliser rewrites namespace declarations on the caller's tree instead of a copy: signing changes the document it signs")
 	// comments / PIs dropped: the child loop of walkAttributes removes everything but elements and text
-	if w := p.Func("lib/xmldsig.walkAttributes"); w != nil {
+	if w := walker; w != nil {
 		c.Analysed(p.FName(w))
 		kept := map[string]bool{}
 		for _, b := range w.Blocks {
@@ -526,9 +544,9 @@ func c19Transform(c *Ctx) {
 
 func c19AttrOrder(c *Ctx) {
 	p := c.P
-	w := p.Func("lib/xmldsig.walkAttributes")
+	w := c19Walker(p)
 	if w == nil {
-		c.Undecided("R19e", "walkAttributes", "-", "function not found")
+		c.Undecided("R19e", "attribute walker", "-", "no function reachable from SerializeCanonical sorts attributes")
 		return
 	}
 	var less *ssa.Function
@@ -556,6 +574,27 @@ func c19AttrOrder(c *Ctx) {
 			}
 		}
 	}
+	// the lookup must be scoped to the element: no map that the recursive walk keeps adding to
+	// (without removing or copying per level) may feed the comparator
+	leak := ""
+	for f := range p.moduleReach([]*ssa.Function{less}, nil) {
+		for _, b := range f.Blocks {
+			for _, in := range b.Instrs {
+				lk, ok := in.(*ssa.Lookup)
+				if !ok {
+					continue
+				}
+				if _, isMap := lk.X.Type().Underlying().(*types.Map); !isMap {
+					continue
+				}
+				if c19MapLeaksAcrossWalk(p, w, f, lk.X) {
+					leak = p.Pos(lk.Pos())
+				}
+			}
+		}
+	}
+	c.Check(leak == "", "R19e", "namespace lookup is scoped to the element", p.Pos(less.Pos()), "no walk-wide binding table feeds the comparator",
+		"the comparator resolves prefixes through a map that the recursive walk only ever adds to (lookup at "+leak+"): a prefix re-bound inside one subtree keeps its inner URI for every element visited afterwards, so attributes outside that subtree are ordered by the wrong namespace")
 	c.Check(resolves, "R19e", "attribute order resolves namespace URIs", p.Pos(less.Pos()), "the comparator looks the prefix's declaration up",
 		"attributes are ordered by their prefix, never by the namespace URI the prefix is bound to: Canonical XML orders by URI (spec example 3.3: b:attr with http://www.ietf.org precedes a:attr with http://www.w3.org), so any element with two differently prefixed attributes can canonicalise differently from every conforming implementation")
 	// declarations first: comparisons against "xmlns"
@@ -640,6 +679,15 @@ func c19Identity(c *Ctx) {
 			ok = false
 		}
 		c.Check(ok, "R19f", "publicKeyToken is computed from the certificate's public key", p.Pos(f.Pos()), "", "the publicKeyToken attribute is not PublicKeyToken(cert.Leaf.PublicKey) of the signing certificate")
+		if attr != nil {
+			okAll := true
+			for _, r := range p.successReturns(f) {
+				if avoidable(f, attr, r) {
+					okAll = false
+				}
+			}
+			c.Check(okAll, "R19f", "publicKeyToken is written on every success path", p.Pos(attr.Pos()), "", "setAssemblyIdentity can return successfully without writing the signing key's token: a manifest that already carries another key's token keeps it, and the signed identity names a key that did not sign")
+		}
 	}
 	if f := p.Func("lib/appmanifest.setPublisherIdentity"); f != nil {
 		c.Analysed(p.FName(f))
@@ -648,6 +696,21 @@ func c19Identity(c *Ctx) {
 			ok = ci.Common().Args[0] == ssa.Value(f.Params[1])
 		}
 		c.Check(ok, "R19f", "publisherIdentity is computed from the signing certificate", p.Pos(f.Pos()), "", "publisherIdentity is not derived from the signing certificate")
+		var rm ssa.CallInstruction
+		for _, ci := range p.callsIn(f, "lib/xmldsig.RemoveElements") {
+			rm = ci
+		}
+		nAttr := 0
+		okAll := rm != nil
+		for _, ci := range p.callsIn(f, "(*github.com/beevik/etree.Element).CreateAttr") {
+			nAttr++
+			for _, r := range p.successReturns(f) {
+				if avoidable(f, ci, r) || (rm != nil && avoidable(f, rm, r)) {
+					okAll = false
+				}
+			}
+		}
+		c.Check(okAll && nAttr == 2, "R19f", "publisherIdentity is replaced on every success path", p.Pos(f.Pos()), "", "setPublisherIdentity can succeed without replacing an existing publisherIdentity (old element removed, name and issuerKeyHash written)")
 	}
 	// VSIX
 	for _, fn := range p.pkgFuncs("signers/vsix") {
@@ -669,4 +732,168 @@ func (p *Prog) constLiteral2(rel, name string) ([]string, []string, bool) {
 		keys[i] = strings.Trim(k, "\"")
 	}
 	return keys, vals, ok
+}
+
+// c19MapLeaksAcrossWalk: m (a map value used in function user, reached from the attribute
+// comparator) is a binding table of the recursive walker: the walker updates it, hands the very
+// same map to its recursive call, and never deletes from it.
+func c19MapLeaksAcrossWalk(p *Prog, walker, user *ssa.Function, m ssa.Value) bool {
+	// values that stand for one map-typed parameter of the walker: the parameter itself and,
+	// when it is captured by a closure (spilled to a cell), the cell and its loads
+	type ident struct {
+		param *ssa.Parameter
+		cell  *ssa.Alloc
+	}
+	var ids []ident
+	for _, pa := range walker.Params {
+		if _, isMap := pa.Type().Underlying().(*types.Map); !isMap {
+			continue
+		}
+		id := ident{param: pa}
+		for _, r := range *pa.Referrers() {
+			if st, ok := r.(*ssa.Store); ok && st.Val == ssa.Value(pa) {
+				if a, ok := st.Addr.(*ssa.Alloc); ok {
+					id.cell = a
+				}
+			}
+		}
+		ids = append(ids, id)
+	}
+	isOf := func(v ssa.Value, id ident, in *ssa.Function) bool {
+		if v == ssa.Value(id.param) {
+			return true
+		}
+		if l, ok := v.(*ssa.UnOp); ok && l.Op == token.MUL {
+			if id.cell != nil && l.X == ssa.Value(id.cell) {
+				return true
+			}
+			if fv, ok := l.X.(*ssa.FreeVar); ok && id.cell != nil {
+				if mc := closureMaker(walker, in); mc != nil {
+					for i, v2 := range in.FreeVars {
+						if v2 == fv && i < len(mc.Bindings) && mc.Bindings[i] == ssa.Value(id.cell) {
+							return true
+						}
+					}
+				}
+			}
+		}
+		if fv, ok := v.(*ssa.FreeVar); ok {
+			if mc := closureMaker(walker, in); mc != nil {
+				for i, v2 := range in.FreeVars {
+					if v2 == fv && i < len(mc.Bindings) && mc.Bindings[i] == ssa.Value(id.param) {
+						return true
+					}
+				}
+			}
+		}
+		return false
+	}
+	// which walker map does m stand for?
+	var hit *ident
+	for i := range ids {
+		id := ids[i]
+		if user == walker || closureMaker(walker, user) != nil {
+			if isOf(m, id, user) {
+				hit = &ids[i]
+			}
+			continue
+		}
+		// a helper: m is its parameter, look at the call sites in the walker and its closures
+		pa, ok := m.(*ssa.Parameter)
+		if !ok {
+			continue
+		}
+		idx := -1
+		for k, up := range user.Params {
+			if up == pa {
+				idx = k
+			}
+		}
+		for _, f := range withClosures(walker) {
+			for _, ci := range p.callsIn(f, p.FName(user)) {
+				if idx >= 0 && idx < len(ci.Common().Args) && isOf(ci.Common().Args[idx], id, f) {
+					hit = &ids[i]
+				}
+			}
+		}
+	}
+	if hit == nil {
+		return false
+	}
+	updates, deletes, passedOn := false, false, false
+	for _, f := range withClosures(walker) {
+		for _, b := range f.Blocks {
+			for _, in := range b.Instrs {
+				switch x := in.(type) {
+				case *ssa.MapUpdate:
+					if isOf(x.Map, *hit, f) {
+						updates = true
+					}
+				case ssa.CallInstruction:
+					if bi, ok := x.Common().Value.(*ssa.Builtin); ok && bi.Name() == "delete" && len(x.Common().Args) > 0 && isOf(x.Common().Args[0], *hit, f) {
+						deletes = true
+					}
+					if x.Common().StaticCallee() == walker {
+						for _, a := range x.Common().Args {
+							if isOf(a, *hit, f) {
+								passedOn = true
+							}
+						}
+					}
+				}
+			}
+		}
+	}
+	return updates && passedOn && !deletes
+}
+
+// ------------------------------------------------------------------------------ R19g
+
+func c19FailClosed(c *Ctx) {
+	p := c.P
+	ver := p.Func("lib/xmldsig.Verify")
+	if ver == nil {
+		c.Undecided("R19g", "xmldsig.Verify", "-", "function not found")
+		return
+	}
+	n := primitivesFailClosed(c, "R19g", map[*ssa.Function]bool{ver: true}, false)
+	if n < 2 {
+		c.Undecided("R19g", "signature checks in xmldsig.Verify", p.Pos(ver.Pos()), fmt.Sprintf("only %d primitive verification calls found (2 confirmed by reading)", n))
+	}
+	// the reference digest comparison guards every success return
+	eq := p.callsIn(ver, "crypto/hmac.Equal")
+	if len(eq) != 1 {
+		c.Fail("R19g", "xmldsig.Verify compares the reference digest", p.Pos(ver.Pos()), fmt.Sprintf("%d constant-time digest comparisons found, 1 expected", len(eq)))
+		return
+	}
+	g := p.callGuard("hmac.Equal()==true", []string{"crypto/hmac.Equal"}, -1, IsTrue, nil)
+	ok := true
+	var path []string
+	for _, r := range p.successReturns(ver) {
+		if missing, w := p.unguardedFromEntry(ver, r, g); len(missing) > 0 {
+			ok = false
+			path = w
+		}
+	}
+	c.Check(ok, "R19g", "xmldsig.Verify succeeds only after the reference digest matched", p.Pos(eq[0].Pos()), "", "a success return of Verify is reachable without the reference digest comparison having succeeded", path...)
+}
+
+// c19Walker: the function of lib/xmldsig, reachable from SerializeCanonical, that sorts attributes.
+func c19Walker(p *Prog) *ssa.Function {
+	ser := p.Func("lib/xmldsig.SerializeCanonical")
+	if ser == nil {
+		return nil
+	}
+	var out *ssa.Function
+	for f := range p.moduleReach([]*ssa.Function{ser}, nil) {
+		if pkgOf(f) == nil || p.Rel(pkgOf(f).Path()) != "lib/xmldsig" || f.Parent() != nil {
+			continue
+		}
+		if len(p.callsIn(f, "sort.Slice", "sort.SliceStable")) > 0 {
+			if out == nil || p.FName(f) < p.FName(out) {
+				out = f
+			}
+		}
+	}
+	return out
 }
